@@ -169,12 +169,11 @@ static sigjmp_buf            g_jmp;
 static volatile sig_atomic_t g_in_exec = 0;
 static volatile sig_atomic_t g_crash_sig = 0;
 static long                  g_contained = 0;
+static volatile sig_atomic_t g_confirmed_hangs = 0; // hangs that survived a second attempt with a 30 s limit
+static int                   g_watchdog_s = 3;
 static void on_signal(int sig)
 {
-    static volatile sig_atomic_t hangs = 0;
-    if (sig == SIGALRM)
-        hangs++;
-    if (g_in_exec && g_contained < 1000000 && hangs <= 3)
+    if (g_in_exec && g_contained < 1000000 && g_confirmed_hangs <= 3)
     {
         g_in_exec   = 0;
         g_crash_sig = sig;
@@ -254,6 +253,7 @@ struct Engine
         std::string dump;
         bool        val_ok{true};
         bool        crashed{false};
+        bool        hang{false};
         std::string val_msg;
     };
 
@@ -274,11 +274,27 @@ struct Engine
     }
     Tr exec_cfg(const Config& xcfg, const std::vector<Op>& hist, const Op* op)
     {
+        Tr t = exec_once(xcfg, hist, op);
+        if (t.crashed && t.hang)
+        {
+            // A deterministic history that misses the 3 s watchdog is run once more, alone, with a 30 s
+            // limit before anything is said about it (a stalled machine must not look like a hang).
+            g_watchdog_s = 30;
+            Tr t2        = exec_once(xcfg, hist, op);
+            g_watchdog_s = 3;
+            if (t2.crashed && t2.hang)
+                g_confirmed_hangs = g_confirmed_hangs + 1;
+            return t2;
+        }
+        return t;
+    }
+    Tr exec_once(const Config& xcfg, const std::vector<Op>& hist, const Op* op)
+    {
         Tr t;
         g_cur_hist = hist;
         if (op)
             g_cur_hist.push_back(*op);
-        alarm(3);
+        alarm(g_watchdog_s);
         g_now_ns        = BASE_NS;
         ValStats before = g_vs;
         if (containment())
@@ -297,6 +313,7 @@ struct Engine
                 t         = Tr();
                 t.val_ok  = false;
                 t.crashed = true;
+                t.hang    = g_crash_sig == SIGALRM;
                 t.val_msg = g_crash_sig == SIGALRM ? "the call sequence hangs (watchdog)" : g_crash_sig == SIGABRT ? "the call sequence aborts (assertion / checked iterator)" : "the call sequence dies with a fatal signal (invalid memory access)";
                 execs++;
                 return t;
@@ -959,7 +976,7 @@ struct Engine
         }
     }
 
-    bool time_up() { return wall() - t0 > a.deadline_s; }
+    bool time_up() { return wall() - t0 > a.deadline_s || g_confirmed_hangs > 3; }
 
     // ---------------------------------------------------------------------------------------
     // Dedup-free sweep: all sequences up to depth d0, no merging.
